@@ -41,30 +41,39 @@ structure Curve where
   r : Path                 -- exact coordinates
   f : Array FP             -- the same vertices as floats
 
-def isTie (tolR : Rat) (tolF : Float) (cv : Curve) (k i j : Nat) : Bool :=
-  match cv.r[k]?, cv.r[i]?, cv.r[j]? with
-  | some pk, some pi, some pj =>
-    let exact := far tolR pk pi pj
-    let fl := decide (fdist (cv.f[k]!) (cv.f[i]!) (cv.f[j]!) > tolF)
-    let d2 := distSq pk pi pj
-    let t2 := tolR * tolR
-    let gap := if d2 ≥ t2 then d2 - t2 else t2 - d2
-    exact != fl || (decide (gap ≠ 0) && decide (gap ≤ slack * t2))
-  | _, _, _ => false
+/-- Tie test for one distance comparison of the model: `(tie, far)`.  The float replica decides; the
+exact comparison is evaluated only when the float distance is within 1e-6·tol of `tol` (float
+error on these inputs is many orders below that, so elsewhere float and exact agree — and if they
+did not, the exact model run below would differ from the implementation and be reported). -/
+def isTie (tolR : Rat) (tolF : Float) (cv : Curve) (k i j : Nat) : Bool × Bool :=
+  let df := fdist (cv.f[k]!) (cv.f[i]!) (cv.f[j]!)
+  let fl := decide (df > tolF)
+  let close := Float.abs (df - tolF) ≤ 1e-6 * Float.abs tolF
+  if close then
+    match cv.r[k]?, cv.r[i]?, cv.r[j]? with
+    | some pk, some pi, some pj =>
+      let exact := far tolR pk pi pj
+      let d2 := distSq pk pi pj
+      let t2 := tolR * tolR
+      let gap := if d2 ≥ t2 then d2 - t2 else t2 - d2
+      (exact != fl || (decide (gap ≠ 0) && decide (gap ≤ slack * t2)), exact)
+    | _, _, _ => (false, fl)
+  else (false, fl)
 
 /-- ties among the distance tests of one `scan` -/
 def scanTies (tolR : Rat) (tolF : Float) (cv : Curve) (i j : Nat) : Nat → Nat → Bool
   | 0, _ => false
   | d + 1, k =>
     if j = cv.r.length then false
-    else if isTie tolR tolF cv k i j then true
-    else match cv.r[k]?, cv.r[i]?, cv.r[j]? with
-      | some pk, some pi, some pj => if far tolR pk pi pj then false else scanTies tolR tolF cv i j d (k + 1)
-      | _, _, _ => false
+    else
+      let (tie, isFar) := isTie tolR tolF cv k i j
+      if tie then true
+      else if isFar then false else scanTies tolR tolF cv i j d (k + 1)
 
 structure Walk where
   tie : Bool := false
   backoffs : Nat := 0
+  final : Option St := none     -- state when the `for j` loop ended (`Model.jLoop`'s result)
 
 /-- walk the `for j` loop of the model (first pass of the outer loop, which is the only one for
 curves of three or more points) and look at every distance test it makes -/
@@ -78,7 +87,7 @@ def walk (tolR : Rat) (tolF : Float) (cv : Curve) (others : List Path) : Nat →
         let w := if s'.out.length > s.out.length ∧ s'.j < s.j + 1 then { w with backoffs := w.backoffs + 1 } else w
         walk tolR tolF cv others f s' w
       | .error _ => w
-    else w
+    else { w with final := some s }
 
 def walkCurve (tolR : Rat) (tolF : Float) (cv : Curve) (others : List Path) : Walk :=
   match cv.r with
@@ -168,19 +177,34 @@ def judgeLine (line : String) : String :=
               | some lr, some orr =>
                 let cv := mkCurve l lr
                 let w := walkCurve tol tolF cv []
-                let simpleIn := Spec.Simple lr
+                -- `Simple` is quadratic in the number of vertices: not evaluated for long (smooth) inputs
+                let simpleIn := lr.length ≤ 260 && Spec.Simple lr
                 let gp := simpleIn && lr.length ≤ 64 && Spec.GenPos lr
                 let kind := if gp then "-simplegp" else if simpleIn then "-simple" else ""
                 let dropped := if orr.length < lr.length then "-drop" else ""
+                let long := if lr.length > 64 && orr.length * 65 < lr.length then "-longrun" else ""
                 let bo := if w.backoffs > 0 then "-bo" else ""
                 let tie := w.tie
-                let cls := s!"{base}{kind}{dropped}{bo}{if onGrid lr then "" else "-nongrid"}{if tie then "-neartie" else ""}"
+                let cls := s!"{base}{kind}{dropped}{long}{bo}{if onGrid lr then "" else "-nongrid"}{if tie then "-neartie" else ""}"
                 let simpleSpec := if gp && !Spec.Simple orr then some "simple-input-in-general-position-but-output-self-intersects" else none
                 let sp := first [inputSpec, specCurve lr orr tol, simpleSpec]
+                -- The walk iterates `Model.jBody` exactly as `Model.jLoop` does, so for three or more
+                -- vertices its final `out` is the model's answer; `simplifyLS` itself is run as well on
+                -- inputs of up to 150 vertices (and always for fewer than three) and must agree.
+                let viaWalk : Option Path := match w.final with
+                  | some st => if st.done then some st.out else none
+                  | none => none
+                let direct : Option (Except Fault Path) :=
+                  if lr.length ≤ 150 || viaWalk.isNone then some (simplifyLS lr tol) else none
                 let df := if tie then none else
-                  match simplifyLS lr tol with
-                  | .ok m => if m == orr then none else some s!"model-keeps-{m.length}-impl-keeps-{orr.length}"
-                  | .error e => some s!"model-faults-{repr e}"
+                  match viaWalk, direct with
+                  | some m, some (.ok m') =>
+                    if m != m' then some "driver-walk-differs-from-simplifyLS"
+                    else if m == orr then none else some s!"model-keeps-{m.length}-impl-keeps-{orr.length}"
+                  | some m, none => if m == orr then none else some s!"model-keeps-{m.length}-impl-keeps-{orr.length}"
+                  | _, some (.ok m') => if m' == orr then none else some s!"model-keeps-{m'.length}-impl-keeps-{orr.length}"
+                  | _, some (.error e) => some s!"model-faults-{repr e}"
+                  | none, none => some "no-model-answer"
                 fmtVerdict ⟨sp, df, cls⟩
               | _, _ => "OK skipped-nonfinite"
             | .multiLineString ml, .multiLineString mo =>
